@@ -1,14 +1,13 @@
 (** C16 — encodings round-trip, keys order correctly, decoders fail safely.
 
     Models describe the code after the repairs in fixes/codec-decoders-panic-alloc.md.
-    Round trips proved here: uvarint, internal key, lock record, raft hard-state /
-    snapshot framing, command frame, value pointer, value struct, WAL record (C13).
-    The round trips of the entry record, write record, raft entry batch and manifest
-    edit are checked by the correspondence only (decode (real encode v) = v on every
-    generated value) — no theorem is claimed for them. *)
+    Every codec of the property has its round-trip theorem: uvarint, internal key,
+    entry record, value pointer, value struct, lock record, write record, raft entry
+    batch, raft hard-state / snapshot framing, command frame, manifest edit, and the
+    WAL record (C13_decode_encode).  Protobuf bodies are opaque byte strings. *)
 From Coq Require Import List NArith.
 From NoKV Require Import Base.Bytes Base.Num Base.Varint Model.Keys Model.EntryCodec Model.PercoCodec
-  Model.RaftCodec Model.ManifestCodec Model.WalCodec Spec.CodecSpec Proofs.KeysProofs Proofs.CodecProofs.
+  Model.RaftCodec Model.ManifestCodec Model.WalCodec Spec.CodecSpec Proofs.KeysProofs Proofs.CodecProofs Proofs.ManifestCodecProofs Proofs.CodecRtProofs.
 Import ListNotations.
 Local Open Scope N_scope.
 
@@ -57,6 +56,29 @@ Print Assumptions rt_vptr.
 Theorem rt_value : forall v, v_meta v < 256 -> v_exp v < two64 -> decode_value (enc_value v) = v.
 Proof. exact CodecProofs.rt_value. Qed.
 Print Assumptions rt_value.
+
+Theorem rt_write : forall w, write_ok w -> decode_write (enc_write w) = DVal w.
+Proof. exact CodecRtProofs.rt_write. Qed.
+Print Assumptions rt_write.
+
+Theorem rt_raft_entries : forall gid bodies,
+  gid < two64 -> N.of_nat (length bodies) < two64 -> Forall (fun b => blen b < two64) bodies ->
+  decode_raft_entries (enc_raft_entries gid bodies) = Some (gid, bodies).
+Proof. exact CodecRtProofs.rt_raft_entries. Qed.
+Print Assumptions rt_raft_entries.
+
+(** the entry record (WAL payload / value-log record) followed by anything *)
+Theorem rt_entry : forall e rest,
+  entry_ok e -> decode_entry_from (enc_entry e ++ rest) = EdOk e (u32 (blen (enc_entry e))) rest.
+Proof. exact CodecRtProofs.rt_entry. Qed.
+Print Assumptions rt_entry.
+
+(** the manifest edit record; [cn e] is [e] up to what the format does not store
+    (DeleteValueLog keeps only bucket and file id, ValueLogHead implies Valid, a region
+    delete keeps only the id), and [apply v (cn e) = apply v e] (C15: rt_edit_apply) *)
+Theorem rt_edit : forall e rest, edit_ok e -> read_edit (enc_edit e ++ rest) = ReOk (cn e) rest.
+Proof. exact ManifestCodecProofs.rt_edit. Qed.
+Print Assumptions rt_edit.
 
 (** decoders never panic, for ALL byte strings (the models carry Go's index and
     slice-bounds checks as an explicit [DPanic] outcome) *)
